@@ -370,8 +370,38 @@ type TypeCase struct {
 	Input []byte   `json:"input"`
 }
 
+// embedChain: a chain of 3-5 embedded structs (each level also has a field of
+// its own, the innermost two or more), the shape in which promoted fields get
+// index paths of length 4 and more.
+func embedChain(t *rapid.T) TypeDesc {
+	n := gen.Uniform(t, 3, 5, "chainn")
+	inner := TypeDesc{Kind: "struct", Fields: []FieldDesc{
+		{Name: "X1", Tag: `json:"x"`, Type: TypeDesc{Kind: "int"}},
+		{Name: "Zz", Tag: `json:"z,omitempty"`, Type: TypeDesc{Kind: "string"}},
+		{Name: "Key", Type: TypeDesc{Kind: rapid.SampledFrom(basicNames).Draw(t, "chaink")}},
+	}}
+	cur := inner
+	names := []string{"A", "B", "C", "Dd", "Sk"}
+	for i := 0; i < n; i++ {
+		emb := FieldDesc{Name: "E", Anonymous: true, Type: cur}
+		if gen.OneIn(t, 3, fmt.Sprintf("chainptr%d", i)) {
+			c := cur
+			emb.Type = TypeDesc{Kind: "ptr", Elem: &c}
+		}
+		own := FieldDesc{Name: names[i], Type: TypeDesc{Kind: "int"}}
+		if gen.OneIn(t, 2, fmt.Sprintf("chaintag%d", i)) {
+			own.Tag = fmt.Sprintf(`json:"f%d"`, i)
+		}
+		cur = TypeDesc{Kind: "struct", Fields: []FieldDesc{own, emb}}
+	}
+	return cur
+}
+
 func drawType(t *rapid.T) TypeCase {
 	d := genType(t, 3, "T")
+	if gen.OneIn(t, 15, "chain") {
+		d = embedChain(t)
+	}
 	if d.Kind != "struct" && gen.OneIn(t, 2, "forcestruct") {
 		d = genStruct(t, 2, "S")
 	}
